@@ -68,6 +68,7 @@ func planC12(tier string, root *simcore.RNG) *plan {
 	}
 	entries := []entry{
 		{"script3", "stl", "", 0, 1000}, {"script3", "stl", "", 0, 300}, {"script3", "3mf", "", 0, 1000},
+		{"script3", "stl", "", 0, 9000}, // long enough for anything the writer does every few thousand triangles
 		{"script2", "dxf", "", 0, 600}, {"script2", "svg", "", 0, 600},
 		{"script3", "stl", "", 0, 0}, {"script3", "3mf", "", 0, 0}, {"script2", "dxf", "", 0, 0}, {"script2", "svg", "", 0, 0}, {"script3", "stl", "", 0, 1},
 		{"mco", "stl", "sphere-box", 12, 0}, {"mcu", "stl", "csg", 10, 0}, {"mco", "3mf", "csg", 10, 0},
@@ -111,6 +112,16 @@ func planC12(tier string, root *simcore.RNG) *plan {
 		}
 		every := thorough && e.kind == "script3" && e.sink == "stl" && e.n <= 300
 		budgets := fsizeBudgets(expect, every)
+		if !thorough && e.n >= 5000 {
+			// the long file: every flush index, without the +-1 neighbours
+			var keep []int64
+			for _, b := range budgets {
+				if b%4096 == 0 || b < 200 || b > expect-200 {
+					keep = append(keep, b)
+				}
+			}
+			budgets = keep
+		}
 		if expect == 0 {
 			// size unknown in advance: flush-granular budgets up to 128 KiB (fired budgets are counted from the runs)
 			budgets = fsizeBudgets(0, false)
